@@ -1,6 +1,6 @@
 (* C09 — property theorems only.  Each is closed by `exact` of a lemma of C09_Proofs*.v. *)
 From Coq Require Import List NArith ZArith Bool.
-From Dae Require Import C09_Spec C09_Model C09_Check C09_ProofsF C09_ProofsP C09_Proofs C09_ProofsC.
+From Dae Require Import C09_Spec C09_Model C09_Check C09_ProofsF C09_ProofsP C09_Proofs C09_ProofsC C09_ProofsW.
 Import ListNotations.
 Open Scope N_scope.
 
@@ -76,6 +76,30 @@ Theorem C09_singleflight_one_resolution :
       forall k, In k added -> exists c, In c cs /\ key_of (cq_q c) = k.
 Proof. exact C09_singleflight_one_resolution_proof. Qed.
 Print Assumptions C09_singleflight_one_resolution.
+
+(* The per-waiter tail after singleflight for a result that is not in the cache (copy the leader's
+   message, stamp the own ID, hand it to the response writer, which packs it at any later time): for every
+   number of waiters, any transaction IDs (also equal ones) and every interleaving of the waiters' steps
+   copy / stamp / enter WriteMsg / pack, what is packed for a waiter is the leader's message under that
+   waiter's own ID; no two waiters are handed the same message object, and nobody is handed the shared one. *)
+Theorem C09_waiter_reply_private :
+  forall m0 ids sched,
+    let s := wrun true m0 ids sched in
+    (forall i id o p, nth_error (w_ws s) i = Some (id, WDone o p) -> p = with_id m0 id) /\
+    (forall i j idi idj pci pcj o, i <> j ->
+       nth_error (w_ws s) i = Some (idi, pci) -> nth_error (w_ws s) j = Some (idj, pcj) ->
+       wobj pci = Some o -> wobj pcj = Some o -> False) /\
+    (forall i id pc o, nth_error (w_ws s) i = Some (id, pc) -> wobj pc = Some o -> o <> 0%nat).
+Proof. exact C09_waiter_reply_private_proof. Qed.
+Print Assumptions C09_waiter_reply_private.
+
+(* The variant that stamps and writes the shared message itself (no copy) is refutable: a waiter whose
+   writer packs after another waiter stamped replies under the other client's ID. *)
+Theorem C09_waiter_reply_shared_refuted :
+  exists m0 ids sched i id o p,
+    nth_error (w_ws (wrun false m0 ids sched)) i = Some (id, WDone o p) /\ m_id p <> id.
+Proof. exact C09_waiter_reply_shared_refuted_proof. Qed.
+Print Assumptions C09_waiter_reply_shared_refuted.
 
 (* ---- forwarder lifecycle (cachedDnsForwarder) ------------------------------------------------ *)
 
